@@ -37,5 +37,5 @@ AfterFull ==
   IN fs # <<>> /\ LET f == fs[Len(fs)] IN
        \E o \in store : ~o.pub \/ f.t < o.t \/ (f.t = o.t /\ f.n < o.n)
 
-EmitC04 == PrintT("CASE " \o ToJson([ops |-> OpsJson, res |-> res, na |-> IF AfterFull THEN 1 ELSE 0, log |-> LogJson]))
+EmitC04 == PrintT("CASE " \o ToJson([ops |-> OpsJson, res |-> res, ao |-> AoNow, na |-> IF AfterFull THEN 1 ELSE 0, log |-> LogJson]))
 =============================================================================
